@@ -9,9 +9,9 @@ export CARGO_TARGET_DIR=$WT/target CARGO_NET_OFFLINE=true
 FF=""; [ -n "$FEAT" ] && FF="--features $FEAT"
 git checkout -q -- src 2>/dev/null
 cp SEEDED/demo.rs tests/zz_seeded_demo.rs
-echo "== demo on unmodified tree"; cargo test --offline $FF --test zz_seeded_demo 2>&1 | grep -E "^test result|error(\[|:)" | head -3
+echo "== demo on unmodified tree"; cargo test --offline $FF --test zz_seeded_demo 2>&1 | grep -E "^test result|^error(\[E|: could not compile)" | head -3
 git apply SEEDED/patch.diff || { echo "PATCH DOES NOT APPLY"; rm -f tests/zz_seeded_demo.rs; exit 1; }
-echo "== demo with patch"; cargo test --offline $FF --test zz_seeded_demo 2>&1 | grep -E "^test result|error(\[|:)" | head -3
+echo "== demo with patch"; cargo test --offline $FF --test zz_seeded_demo 2>&1 | grep -E "^test result|^error(\[E|: could not compile)" | head -3
 rm -f tests/zz_seeded_demo.rs
 echo "== suite with patch"; cargo nextest run --workspace --no-fail-fast --offline $FF 2>&1 | grep -E "Summary|FAIL " | head -5
 git checkout -q -- src
